@@ -83,9 +83,11 @@ Section Sorting.
 End Sorting.
 
 (** * Predicates *)
+Inductive vop := VEq | VNe | VLt | VLe | VGt | VGe.
 Inductive pred :=
 | PTrue
 | PCmp (neq : bool) (k v : string)       (* tag/_measurement/_field  = / !=  literal *)
+| PVal (op : vop) (n : Z)                (* field value ($)  op  integer literal *)
 | PAnd (a b : pred)
 | POr (a b : pred).
 
@@ -104,27 +106,83 @@ Definition ref_value (s : series) (f : string) (k : string) : string :=
   else if String.eqb k K_FIELD then f
   else match tags_get (s_tags s) k with Some v => v | None => EmptyString end.
 
+(** the ROW condition ([measurementCond] = the predicate with every field-value comparison
+    replaced by [true], [RewriteExprRemoveFieldValue]) *)
 Fixpoint eval (p : pred) (s : series) (f : string) : bool :=
   match p with
   | PTrue => true
   | PCmp neq k v => let e := String.eqb (ref_value s f k) v in if neq then negb e else e
+  | PVal _ _ => true
   | PAnd a b => eval a s f && eval b s f
   | POr a b => eval a s f || eval b s f
   end.
 
-(** [RewriteExprRemoveFieldKeyAndValue]: every comparison on [_field] becomes [true];
-    the result is the condition handed to the index. *)
+Definition vcmp (op : vop) (v n : Z) : bool :=
+  match op with
+  | VEq => (v =? n)%Z | VNe => negb (v =? n)%Z
+  | VLt => (v <? n)%Z | VLe => (v <=? n)%Z
+  | VGt => (n <? v)%Z | VGe => (n <=? v)%Z
+  end.
+(** the full predicate on a point of value [v] of the row *)
+Fixpoint eval_v (p : pred) (s : series) (f : string) (v : Z) : bool :=
+  match p with
+  | PTrue => true
+  | PCmp neq k w => let e := String.eqb (ref_value s f k) w in if neq then negb e else e
+  | PVal op n => vcmp op v n
+  | PAnd a b => eval_v a s f v && eval_v b s f v
+  | POr a b => eval_v a s f v || eval_v b s f v
+  end.
+
+(** [RewriteExprRemoveFieldKeyAndValue]: every comparison on [_field] or on the field value
+    becomes [true]; the result is the condition handed to the index. *)
 Fixpoint index_cond (p : pred) : pred :=
   match p with
   | PCmp _ k _ => if String.eqb k K_FIELD then PTrue else p
+  | PVal _ _ => PTrue
   | PAnd a b => PAnd (index_cond a) (index_cond b)
   | POr a b => POr (index_cond a) (index_cond b)
   | PTrue => PTrue
   end.
 
 Definition opt_eval (p : option pred) s f := match p with None => true | Some p => eval p s f end.
+Definition opt_eval_v (p : option pred) s f v :=
+  match p with None => true | Some p => eval_v p s f v end.
 Definition opt_index_eval (p : option pred) s :=
   match p with None => true | Some p => eval (index_cond p) s EmptyString end.
+
+(** The per-row VALUE condition [row.ValueCond = influxql.Reduce(cond, row)]: the tag, field
+    and measurement comparisons are decided for the row, AND/OR with a boolean literal are
+    simplified exactly as [reduceBinaryExpr] does, the value comparisons remain. *)
+Inductive vexp := VLit (b : bool) | VCmp (op : vop) (n : Z) | VAnd (a b : vexp) | VOr (a b : vexp).
+Definition is_lit (e : vexp) (b : bool) : bool :=
+  match e with VLit b' => Bool.eqb b b' | _ => false end.
+Definition red_and (x y : vexp) : vexp :=
+  if is_lit x false || is_lit y false then VLit false
+  else if is_lit x true then y else if is_lit y true then x else VAnd x y.
+Definition red_or (x y : vexp) : vexp :=
+  if is_lit x true || is_lit y true then VLit true
+  else if is_lit x false then y else if is_lit y false then x else VOr x y.
+Fixpoint reduce (p : pred) (s : series) (f : string) : vexp :=
+  match p with
+  | PTrue => VLit true
+  | PCmp neq k v => let e := String.eqb (ref_value s f k) v in VLit (if neq then negb e else e)
+  | PVal op n => VCmp op n
+  | PAnd a b => red_and (reduce a s f) (reduce b s f)
+  | POr a b => red_or (reduce a s f) (reduce b s f)
+  end.
+Fixpoint veval (e : vexp) (v : Z) : bool :=
+  match e with
+  | VLit b => b
+  | VCmp op n => vcmp op v n
+  | VAnd a b => veval a v && veval b v
+  | VOr a b => veval a v || veval b v
+  end.
+(** [nil] when the reduced expression is the literal [true] *)
+Definition value_cond (p : option pred) (s : series) (f : string) : option vexp :=
+  match p with
+  | None => None
+  | Some p => let e := reduce p s f in if is_lit e true then None else Some e
+  end.
 
 (** * Request window, shard selection *)
 Definition MinNanoTime : Z := (-9223372036854775806)%Z.
@@ -169,11 +227,16 @@ Definition row_tags (s : series) (f : string) : tags :=
   tags_set (tags_set (s_tags s) K_MEAS (s_name s)) K_FIELD f.
 
 (** [indexSeriesCursor]: the series accepted by the index condition, each paired with every
-    field key of its measurement for which the full condition holds. *)
+    field key of its measurement for which the row condition holds. *)
 Definition series_rows (shs : list shard) (p : option pred) : list (series * string) :=
   flat_map (fun s => map (fun f => (s, f))
                        (filter (fun f => opt_eval p s f) (fields_of shs (s_name s))))
            (filter (opt_index_eval p) (all_series shs)).
+(** [reads.SeriesRow] *)
+Record srow := mkR { r_s : series; r_f : string; r_cond : option vexp }.
+Definition srow_tags (r : srow) : tags := row_tags (r_s r) (r_f r).
+Definition srows (shs : list shard) (p : option pred) : list srow :=
+  map (fun sf => mkR (fst sf) (snd sf) (value_cond p (fst sf) (snd sf))) (series_rows shs p).
 
 (** * Points: the multi-shard array cursor *)
 Definition shard_points (sh : shard) (s : series) (f : string) : list point :=
@@ -185,9 +248,46 @@ Definition shard_points (sh : shard) (s : series) (f : string) : list point :=
 Definition in_win (lo hi : Z) (pt : point) : bool := (lo <=? fst pt)%Z && (fst pt <=? hi)%Z.
 Definition shard_cursor (lo hi : Z) (s : series) (f : string) (sh : shard) : list point :=
   filter (in_win lo hi) (shard_points sh s f).
-(** concatenation of the per-shard cursors in shard order *)
+(** concatenation of the per-shard cursors in shard order (no value condition) *)
 Definition multi_cursor (shs : list shard) (lo hi : Z) (s : series) (f : string) : list point :=
   flat_map (shard_cursor lo hi s f) shs.
+
+(** [*ArrayFilterCursor]: keep the points whose value satisfies the condition *)
+Definition vfilter (c : option vexp) (pts : list point) : list point :=
+  match c with None => pts | Some e => filter (fun pt => veval e (snd pt)) pts end.
+
+(** The per-type [*MultiShardArrayCursor] objects live as long as the result set and are
+    shared by all its series.  Their only state that survives [reset] is the [filter] field:
+    [None] = nil, [Some e] = a filter cursor whose condition is [e].  The state is keyed by the
+    field type (0 = integer, 1 = float, ...). *)
+Definition fstate := list (N * vexp).
+Fixpoint st_get (st : fstate) (ty : N) : option vexp :=
+  match st with [] => None | (t, e) :: r => if N.eqb t ty then Some e else st_get r ty end.
+Definition st_set (st : fstate) (ty : N) (e : vexp) : fstate := (ty, e) :: st.
+
+(** [arrayCursorIterator.Next] returns a nil cursor iff the measurement has no such field in
+    the shard; [createCursor] skips those shards. *)
+Definition has_field (sh : shard) (s : series) (f : string) : bool :=
+  existsb (String.eqb f) (shard_fields sh (s_name s)).
+Fixpoint skip_nil (shs : list shard) (s : series) (f : string) : list shard :=
+  match shs with
+  | [] => []
+  | sh :: r => if has_field sh s f then shs else skip_nil r s f
+  end.
+(** [createCursor] + [reset(cur, itrs, cond)] + [Next]/[nextArrayCursor]:
+    reset with a non-nil [cond] (re)arms the filter and wraps the first cursor in it; reset
+    with a nil [cond] installs the first cursor unwrapped and LEAVES [filter] AS IT IS;
+    [nextArrayCursor] wraps every following shard's cursor in [filter] whenever it is non-nil. *)
+Definition multi_cursor_v (st : fstate) (ty : N) (cond : option vexp) (shs : list shard)
+           (lo hi : Z) (s : series) (f : string) : list point * fstate :=
+  match skip_nil shs s f with
+  | [] => ([], st)
+  | sh :: rest =>
+      let st' := match cond with Some e => st_set st ty e | None => st end in
+      let later := st_get st' ty in
+      (vfilter cond (shard_cursor lo hi s f sh)
+         ++ flat_map (fun sh' => vfilter later (shard_cursor lo hi s f sh')) rest, st')
+  end.
 
 (** The cursor as the state machine of [*MultiShardArrayCursor.Next / nextArrayCursor]:
     a per-shard cursor is the list of its remaining non-empty batches; [Next] returns the next
@@ -217,12 +317,31 @@ Fixpoint ms_drain (fuel : nat) (cur : batches) (rest : list batches) : option (l
 
 (** * ReadFilter *)
 Definition row := (tags * list point)%type.
-Definition read_filter (shs : list shard) (start end_ : Z) (p : option pred) : list row :=
+Definition ftypes := list (string * N).
+Fixpoint ty_of (ty : ftypes) (f : string) : N :=
+  match ty with [] => 0%N | (g, t) :: r => if String.eqb g f then t else ty_of r f end.
+
+(** the client calls [Cursor()] once for every row, in order *)
+Definition read_one (ty : ftypes) (sel : list shard) (lo hi : Z) (st : fstate) (r : srow)
+  : row * fstate :=
+  let '(pts, st') := multi_cursor_v st (ty_of ty (r_f r)) (r_cond r) sel lo hi (r_s r) (r_f r) in
+  ((srow_tags r, pts), st').
+Fixpoint read_rows (ty : ftypes) (sel : list shard) (lo hi : Z) (st : fstate) (rows : list srow)
+  : list row * fstate :=
+  match rows with
+  | [] => ([], st)
+  | r :: rest =>
+      let '(x, st1) := read_one ty sel lo hi st r in
+      let '(xs, st2) := read_rows ty sel lo hi st1 rest in
+      (x :: xs, st2)
+  end.
+
+Definition read_filter (ty : ftypes) (shs : list shard) (start end_ : Z) (p : option pred)
+  : list row :=
   let lo := clamp_start start in
   let e := clamp_end end_ in
   let sel := select_shards shs lo e in
-  map (fun sf => (row_tags (fst sf) (snd sf), multi_cursor sel lo (e - 1) (fst sf) (snd sf)))
-      (series_rows sel p).
+  fst (read_rows ty sel lo (e - 1) [] (srows sel p)).
 
 (** * ReadGroup *)
 Definition NUL : string := String (ascii_of_N 0) EmptyString.
@@ -256,64 +375,101 @@ Fixpoint merge_keys (a : list string) : list string -> list string :=
             end
         end
   end.
-Definition merged_keys (rows : list row) : list string :=
-  fold_left (fun acc r => merge_keys acc (map fst (fst r))) rows [].
+Definition merged_keys (ts : list tags) : list string :=
+  fold_left (fun acc t => merge_keys acc (map fst t)) ts [].
 
 Record group := mkG { g_vals : list (option string); g_keys : list string; g_rows : list row }.
 
 Definition has_points (r : row) : bool := match snd r with [] => false | _ => true end.
 
-(** consecutive rows with equal sort key form one group *)
-Fixpoint take_group (k : string) (l : list (string * row)) : list row * list (string * row) :=
-  match l with
-  | [] => ([], [])
-  | (k', r) :: l' =>
-      if String.eqb k k' then let '(g, rest) := take_group k l' in (r :: g, rest)
-      else ([], l)
-  end.
-Fixpoint split_groups (fuel : nat) (keys : list string) (l : list (string * row)) : list group :=
-  match fuel, l with
-  | O, _ => []
-  | _, [] => []
-  | S n, (k, r) :: l' =>
-      let '(g, rest) := take_group k l' in
-      mkG (part_vals keys (fst r)) (merged_keys (r :: g)) (r :: g) :: split_groups n keys rest
-  end.
+(** consecutive entries with equal sort key form one group *)
+Section Grouping.
+  Context {R : Type}.
+  Fixpoint take_group (k : string) (l : list (string * R)) : list R * list (string * R) :=
+    match l with
+    | [] => ([], [])
+    | (k', r) :: l' =>
+        if String.eqb k k' then let '(g, rest) := take_group k l' in (r :: g, rest)
+        else ([], l)
+    end.
+  Fixpoint split_groups (fuel : nat) (l : list (string * R)) : list (list R) :=
+    match fuel, l with
+    | O, _ => []
+    | _, [] => []
+    | S n, (k, r) :: l' =>
+        let '(g, rest) := take_group k l' in (r :: g) :: split_groups n rest
+    end.
+End Grouping.
 
 Inductive gmode := GroupBy | GroupNone.
 
-Definition read_group (shs : list shard) (start end_ : Z) (p : option pred)
+(** [groupBySort] / [groupNoneSort]: every row is probed with [seriesHasPoints] (a cursor is
+    created on the SHARED multi-shard cursors and read once) unless HintSchemaAllTime *)
+Fixpoint sort_pass (ty : ftypes) (sel : list shard) (lo hi : Z) (all_time : bool)
+         (st : fstate) (rows : list srow) : list srow * fstate :=
+  match rows with
+  | [] => ([], st)
+  | r :: rest =>
+      if all_time then
+        let '(k, st') := sort_pass ty sel lo hi all_time st rest in (r :: k, st')
+      else
+        let '(x, st1) := read_one ty sel lo hi st r in
+        let '(k, st2) := sort_pass ty sel lo hi all_time st1 rest in
+        (if has_points x then r :: k else k, st2)
+  end.
+
+(** [groupByNextGroup] + [groupByCursor.Next]: the groups are read one after the other on the
+    same shared cursors *)
+Fixpoint read_groups (ty : ftypes) (sel : list shard) (lo hi : Z) (keys : list string)
+         (st : fstate) (gs : list (list srow)) : list group :=
+  match gs with
+  | [] => []
+  | g :: rest =>
+      let '(rows, st') := read_rows ty sel lo hi st g in
+      mkG (part_vals keys (match g with r :: _ => srow_tags r | [] => [] end))
+          (merged_keys (map srow_tags g)) rows
+      :: read_groups ty sel lo hi keys st' rest
+  end.
+
+Definition read_group (ty : ftypes) (shs : list shard) (start end_ : Z) (p : option pred)
            (mode : gmode) (keys : list string) (all_time : bool) : list group :=
-  let rows := read_filter shs start end_ p in
-  let kept := filter (fun r => all_time || has_points r) rows in
+  let lo := clamp_start start in
+  let e := clamp_end end_ in
+  let sel := select_shards shs lo e in
+  let srs := srows sel p in
+  let '(kept, st1) := sort_pass ty sel lo (e - 1) all_time [] srs in
   match mode with
   | GroupBy =>
-      let keyed := map (fun r => (sort_key keys (fst r), r)) kept in
+      let keyed := map (fun r => (sort_key keys (srow_tags r), r)) kept in
       let sorted := isort (fun a b => sltb (fst a) (fst b)) keyed in
-      split_groups (length sorted) keys sorted
+      read_groups ty sel lo (e - 1) keys st1 (split_groups (length sorted) sorted)
   | GroupNone =>
       match kept with
       | [] => []                                  (* nil result set *)
-      | _ => [mkG [] (merged_keys kept) rows]     (* the cursor iterates over ALL rows *)
+      | _ => [mkG [] (merged_keys (map srow_tags kept))
+                  (fst (read_rows ty sel lo (e - 1) st1 srs))]  (* a new pass over ALL rows *)
       end
   end.
 
-(** * Specification (independent of shard selection, clamping, sorting algorithm) *)
+(** * Specification (independent of shard selection, clamping, sorting, cursor state) *)
 Definition all_points (shs : list shard) (s : series) (f : string) : list point :=
   flat_map (fun sh => shard_points sh s f) shs.
-Definition spec_points (shs : list shard) (start end_ : Z) (s : series) (f : string) : list point :=
+Definition spec_points (shs : list shard) (start end_ : Z) (p : option pred)
+           (s : series) (f : string) : list point :=
   isort (fun a b => (fst a <? fst b)%Z)
-        (filter (fun pt => (start <=? fst pt)%Z && (fst pt <? end_)%Z) (all_points shs s f)).
+        (filter (fun pt => (start <=? fst pt)%Z && (fst pt <? end_)%Z
+                           && opt_eval_v p s f (snd pt)) (all_points shs s f)).
 Definition sf_cmp (a b : series * string) : comparison :=
   match series_cmp (fst a) (fst b) with Eq => scmp (snd a) (snd b) | c => c end.
 Definition stored_pairs (shs : list shard) : list (series * string) :=
   to_set sf_cmp (flat_map (fun sh => flat_map (fun sd => map (fun fp => (sd_series sd, fst fp))
                                                            (sd_fields sd)) (sh_data sh)) shs).
-(** every stored series x field that satisfies the predicate and has a point in [start,end),
-    once, in (series key, field) order, with exactly its points in time order *)
+(** every stored series x field with a point in [start,end) on which the predicate (tag, field
+    AND value part) holds: once, in (series key, field) order, with exactly those points in time
+    order *)
 Definition spec_filter (shs : list shard) (start end_ : Z) (p : option pred) : list row :=
   filter has_points
-    (map (fun sf => (row_tags (fst sf) (snd sf), spec_points shs start end_ (fst sf) (snd sf)))
+    (map (fun sf => (row_tags (fst sf) (snd sf), spec_points shs start end_ p (fst sf) (snd sf)))
          (filter (fun sf => opt_eval p (fst sf) (snd sf)) (stored_pairs shs))).
 
 (** * Equalities for the judge *)
@@ -392,6 +548,7 @@ Inductive request :=
 | RGroup (mode : gmode) (keys : list string) (all_time : bool).
 
 Record case := mkCase {
+  c_ty : ftypes;            (* field types other than integer (0) *)
   c_shards : list shard;
   c_start : Z; c_end : Z;
   c_pred : option pred;
@@ -404,11 +561,11 @@ Definition check (c : case) : verdict :=
   let spec := spec_filter (c_shards c) (c_start c) (c_end c) (c_pred c) in
   match c_req c with
   | RFilter =>
-      let m := read_filter (c_shards c) (c_start c) (c_end c) (c_pred c) in
+      let m := read_filter (c_ty c) (c_shards c) (c_start c) (c_end c) (c_pred c) in
       judge (list_eqb row_eqb (c_rows c) m)
             (list_eqb row_eqb (filter has_points (c_rows c)) spec)
   | RGroup mode keys all_time =>
-      let m := read_group (c_shards c) (c_start c) (c_end c) (c_pred c) mode keys all_time in
+      let m := read_group (c_ty c) (c_shards c) (c_start c) (c_end c) (c_pred c) mode keys all_time in
       judge (list_eqb group_eqb (c_groups c) m)
             (group_oracle spec mode keys all_time (c_groups c))
   end.
